@@ -51,7 +51,7 @@ func groundIndexTerms(ts []*Term) map[Sort][]*Term {
 		if t.hasBV {
 			return
 		}
-		s := t.String()
+		s := t.Key()
 		if seenStr[s] {
 			return
 		}
@@ -111,6 +111,18 @@ func instantiate(assumes []*Term, goal *Term) ([]*Term, *Term, bool) {
 		cands := groundIndexTerms(all)
 		addSk(cands, hypSks)
 		addSk(cands, sks)
+		// the goal's own skolem constants are the most relevant instances: try them first
+		for srt, cs := range cands {
+			var front, rest []*Term
+			for _, c := range cs {
+				if c.Kind == kConst && strings.HasPrefix(c.Op, "sk$") {
+					front = append(front, c)
+				} else {
+					rest = append(rest, c)
+				}
+			}
+			cands[srt] = append(front, rest...)
+		}
 		if goalHasEx {
 			witnessOccs = collectSelOccs(all)
 			witnessSks = append(append([]*Term{}, hypSks...), sks...)
@@ -129,9 +141,11 @@ func instantiate(assumes []*Term, goal *Term) ([]*Term, *Term, bool) {
 			return instForall(q, cands)
 		}
 		out = nil
+		var quants []*Term
 		for _, a := range assumes {
 			if a.Kind == kQuant && a.Op == "forall" {
 				any = true
+				quants = append(quants, a)
 				out = append(out, inst(a)...)
 				continue
 			}
@@ -139,6 +153,7 @@ func instantiate(assumes []*Term, goal *Term) ([]*Term, *Term, bool) {
 				changed := false
 				for _, c := range a.Args {
 					if c.Kind == kQuant && c.Op == "forall" {
+						quants = append(quants, c)
 						out = append(out, inst(c)...)
 						changed = true
 					} else {
@@ -152,6 +167,9 @@ func instantiate(assumes []*Term, goal *Term) ([]*Term, *Term, bool) {
 			}
 			out = append(out, a)
 		}
+		// chaining: an instance may read ground terms that other quantified assumptions speak about (e.g. an append
+		// of a sub-slice); match the quantifiers against the reads that the instances introduced, twice at most
+		out = chainInstances(quants, out, occs)
 		// existentials: skolemize the assumed ones; their constants become witnesses in the next round
 		var newSks []*Term
 		for k, a := range out {
@@ -172,6 +190,141 @@ func instantiate(assumes []*Term, goal *Term) ([]*Term, *Term, bool) {
 		assumes = append(append([]*Term{}, assumes...), onlyGround(out)...)
 	}
 	return out, gcur, any
+}
+
+// instFam: the heap family of an array term; an array constant outside the heap families (the contents of one
+// fresh backing array, a copy) is a family of its own, so its defining axioms match reads of it only.
+func instFam(a *Term) string {
+	if f := familyOf(a); f != "" {
+		return f
+	}
+	b := a
+	for b.Kind == kApp && b.Op == "store" {
+		b = b.Args[0]
+	}
+	if b.Kind == kConst {
+		return "const:" + b.Op
+	}
+	return ""
+}
+
+var skMemo = map[int]bool{}
+
+// mentionsSkolem: the term contains a skolem constant (sk$...) of the goal or of an assumed existential.
+func mentionsSkolem(t *Term) bool {
+	if t.Kind == kConst {
+		return strings.HasPrefix(t.Op, "sk$")
+	}
+	if len(t.Args) == 0 {
+		return false
+	}
+	if r, ok := skMemo[t.id]; ok {
+		return r
+	}
+	r := false
+	for _, a := range t.Args {
+		if mentionsSkolem(a) {
+			r = true
+			break
+		}
+	}
+	skMemo[t.id] = r
+	return r
+}
+
+func occKey(o selOcc) string {
+	k := o.fam + "|" + string(o.sort)
+	for _, i := range o.idx {
+		k += "|" + i.Key()
+	}
+	return k
+}
+
+func chainInstances(quants []*Term, out []*Term, known []selOcc) []*Term {
+	// allocation bookkeeping axioms (a fresh reference is stored nowhere; the entry heap is closed under
+	// allocation) only multiply reads: they take no part in chaining
+	var qs []*Term
+	for _, q := range quants {
+		b := q.Args[0]
+		if b.Kind == kApp && b.Op == "not" && len(b.Args) == 1 && b.Args[0].Kind == kApp && b.Args[0].Op == "=" {
+			continue
+		}
+		if b.Kind == kApp && b.Op == "=>" && b.Args[0].Kind == kApp && b.Args[0].Op == "select" && familyOf(b.Args[0].Args[0]) == "G$alloc" {
+			continue
+		}
+		qs = append(qs, q)
+	}
+	quants = qs
+	if len(quants) < 2 {
+		return out
+	}
+	seen := map[string]bool{}
+	for _, o := range known {
+		seen[occKey(o)] = true
+	}
+	from := 0
+	for depth := 0; depth < 3; depth++ {
+		var fresh []selOcc
+		for _, o := range collectSelOccs(out[from:]) {
+			if k := occKey(o); !seen[k] {
+				seen[k] = true
+				fresh = append(fresh, o)
+			}
+		}
+		// relevance: when the goal was skolemized, only reads that mention a skolem constant can matter for it
+		if anySk := func() bool {
+			for _, o := range fresh {
+				for _, i := range o.idx {
+					if mentionsSkolem(i) {
+						return true
+					}
+				}
+			}
+			return false
+		}(); anySk {
+			var rel []selOcc
+			for _, o := range fresh {
+				for _, i := range o.idx {
+					if mentionsSkolem(i) {
+						rel = append(rel, o)
+						break
+					}
+				}
+			}
+			fresh = rel
+		}
+		if debugInst {
+			fmt.Fprintf(os.Stderr, "  chain depth %d: %d fresh reads, %d quantifiers\n", depth, len(fresh), len(quants))
+			for _, o := range fresh {
+				if k := occKey(o); strings.Contains(k, "sk$") && len(k) < 400 {
+					fmt.Fprintf(os.Stderr, "      fresh %s\n", k)
+				}
+			}
+		}
+		if len(fresh) == 0 || len(fresh) > 400 {
+			break
+		}
+		from = len(out)
+		var add []*Term
+		for _, q := range quants {
+			if r, ok := instForallTriggers(q, fresh, map[Sort][]*Term{}); ok {
+				add = append(add, r...)
+				if debugInst {
+					fmt.Fprintf(os.Stderr, "    +%d from %.160s\n", len(r), q.String())
+				}
+			} else if debugInst {
+				fmt.Fprintf(os.Stderr, "    no trigger in %.160s\n", q.String())
+			}
+			if len(add) > 1500 {
+				break
+			}
+		}
+		if len(add) == 0 {
+			break
+		}
+		out = append(out, add...)
+	}
+	return out
 }
 
 // onlyGround: instances that no longer contain quantifiers (safe to carry over as plain assumptions).
@@ -235,6 +388,29 @@ func selChain(t *Term) (*Term, []*Term) {
 	return t, idx
 }
 
+type rowRead struct {
+	a   *Term
+	idx []*Term
+}
+
+// storedRowReads: for a select chain whose array is a store of whole rows, the reads of those rows it may denote.
+func storedRowReads(t *Term) []rowRead {
+	var out []rowRead
+	var idx []*Term
+	for t.Kind == kApp && t.Op == "select" {
+		idx = append([]*Term{t.Args[1]}, idx...)
+		t = t.Args[0]
+		// idx[0] is the index into t; the remaining ones index the row
+		for st := t; st.Kind == kApp && st.Op == "store"; st = st.Args[0] {
+			row := st.Args[2]
+			if strings.HasPrefix(string(row.Sort), "(Array ") && len(idx) > 1 && row.Kind == kConst {
+				out = append(out, rowRead{row, idx[1:]})
+			}
+		}
+	}
+	return out
+}
+
 func collectSelOccs(ts []*Term) []selOcc {
 	var out []selOcc
 	seen := map[*Term]bool{}
@@ -247,13 +423,25 @@ func collectSelOccs(ts []*Term) []selOcc {
 		seen[t] = true
 		if t.Kind == kApp && t.Op == "select" && !t.hasBV {
 			a, idx := selChain(t)
-			key := familyOf(a) + "|" + string(a.Sort)
+			key := instFam(a) + "|" + string(a.Sort)
 			for _, i := range idx {
-				key += "|" + i.String()
+				key += "|" + i.Key()
 			}
 			if !dedup[key] {
 				dedup[key] = true
-				out = append(out, selOcc{familyOf(a), a.Sort, idx})
+				out = append(out, selOcc{instFam(a), a.Sort, idx})
+			}
+			// a read through store(A, r, row) may be a read of the stored row: select(select(store(A, r, row), b), i)
+			// is (also) a read of row at [i]
+			for _, ro := range storedRowReads(t) {
+				k2 := instFam(ro.a) + "|" + string(ro.a.Sort)
+				for _, i := range ro.idx {
+					k2 += "|" + i.Key()
+				}
+				if !dedup[k2] {
+					dedup[k2] = true
+					out = append(out, selOcc{instFam(ro.a), ro.a.Sort, ro.idx})
+				}
 			}
 		}
 		for _, a := range t.Args {
@@ -290,7 +478,7 @@ func instForallTriggers(q *Term, occs []selOcc, cands map[Sort][]*Term) ([]*Term
 		if t.Kind == kApp && t.Op == "select" && t.hasBV {
 			a, idx := selChain(t)
 			if !a.hasBV {
-				tr := trig{fam: familyOf(a), sort: a.Sort}
+				tr := trig{fam: instFam(a), sort: a.Sort}
 				okT := false
 				for _, i := range idx {
 					if i.Kind == kBound {
@@ -321,9 +509,17 @@ func instForallTriggers(q *Term, occs []selOcc, cands map[Sort][]*Term) ([]*Term
 						}
 					}
 					if i.hasBV {
-						okT = false
-						tr.vars = nil
-						break
+						// a compound index mentioning bound variables: matched by syntactic unification
+						if !onlyTheseBound(i, bound) {
+							okT = false
+							tr.vars = nil
+							break
+						}
+						tr.vars = append(tr.vars, -2)
+						tr.gidx = append(tr.gidx, i)
+						tr.offs = append(tr.offs, nil)
+						okT = true
+						continue
 					}
 					tr.vars = append(tr.vars, -1)
 					tr.gidx = append(tr.gidx, i)
@@ -395,7 +591,7 @@ func instForallTriggers(q *Term, occs []selOcc, cands map[Sort][]*Term) ([]*Term
 				return
 			}
 			m[v.Op] = asg[i]
-			key += asg[i].String() + "|"
+			key += asg[i].Key() + "|"
 		}
 		if done[key] {
 			return
@@ -411,12 +607,6 @@ func instForallTriggers(q *Term, occs []selOcc, cands map[Sort][]*Term) ([]*Term
 		}
 	}
 	for _, tr := range trigs {
-		covers := map[int]bool{}
-		for _, p := range tr.vars {
-			if p >= 0 {
-				covers[p] = true
-			}
-		}
 		for _, oc := range occs {
 			if oc.sort != tr.sort || len(oc.idx) < len(tr.vars) {
 				continue
@@ -427,6 +617,13 @@ func instForallTriggers(q *Term, occs []selOcc, cands map[Sort][]*Term) ([]*Term
 			asg := make([]*Term, len(q.Bound))
 			okM := true
 			for lvl, p := range tr.vars {
+				if p == -2 {
+					if !unifyPattern(tr.gidx[lvl], oc.idx[lvl], bound, asg) {
+						okM = false
+						break
+					}
+					continue
+				}
 				if p < 0 && lvl < len(tr.gidx) && tr.gidx[lvl] != nil && !groundMayEqual(tr.gidx[lvl], oc.idx[lvl]) {
 					okM = false
 					break
@@ -473,6 +670,51 @@ func instForallTriggers(q *Term, occs []selOcc, cands map[Sort][]*Term) ([]*Term
 	return res, true
 }
 
+// onlyTheseBound: every bound variable in t is one of the quantifier's own.
+func onlyTheseBound(t *Term, bound map[string]int) bool {
+	if t.Kind == kBound {
+		_, ok := bound[t.Op]
+		return ok
+	}
+	if t.Kind == kQuant {
+		return false
+	}
+	for _, a := range t.Args {
+		if a.hasBV && !onlyTheseBound(a, bound) {
+			return false
+		}
+	}
+	return true
+}
+
+// unifyPattern: syntactic one-way unification of a pattern (with the quantifier's bound variables) against a ground
+// term; bindings go into asg (by bound position). Ground sub-terms must be the same term.
+func unifyPattern(pat, g *Term, bound map[string]int, asg []*Term) bool {
+	if !pat.hasBV {
+		return same(pat, g)
+	}
+	if pat.Kind == kBound {
+		p, ok := bound[pat.Op]
+		if !ok || pat.Sort != g.Sort {
+			return false
+		}
+		if asg[p] != nil {
+			return same(asg[p], g)
+		}
+		asg[p] = g
+		return true
+	}
+	if pat.Kind != g.Kind || pat.Op != g.Op || len(pat.Args) != len(g.Args) || pat.Sort != g.Sort {
+		return false
+	}
+	for i := range pat.Args {
+		if !unifyPattern(pat.Args[i], g.Args[i], bound, asg) {
+			return false
+		}
+	}
+	return true
+}
+
 // instEqClass: equivalence classes of ground terms induced by the top-level equalities of the query being
 // instantiated (set by instantiate, which runs under the discharger lock).
 var instEqClass map[string]string
@@ -502,7 +744,7 @@ func collectEqClasses(assumes []*Term) {
 			return
 		}
 		if t.Op == "=" && len(t.Args) == 2 && !t.hasBV && t.Args[0].Sort == SInt {
-			a, b := eqFind(t.Args[0].String()), eqFind(t.Args[1].String())
+			a, b := eqFind(t.Args[0].Key()), eqFind(t.Args[1].Key())
 			if a != b {
 				instEqClass[a] = b
 			}
@@ -527,7 +769,7 @@ func groundMayEqual(a, b *Term) bool {
 	if a.Kind != kConst || b.Kind != kConst {
 		return true
 	}
-	return eqFind(a.String()) == eqFind(b.String())
+	return eqFind(a.Key()) == eqFind(b.Key())
 }
 
 // triggerMatches: for a one-variable quantifier, the terms its variable takes under trigger matching.
@@ -583,6 +825,20 @@ func instForall(q *Term, cands map[Sort][]*Term) []*Term {
 	return res
 }
 
+// isLenFamily: an array constant (any epoch or havoc) of a heap family holding slice lengths.
+func isLenFamily(t *Term) bool {
+	n := strings.Trim(t.Op, "|")
+	if i := strings.LastIndex(n, "@"); i >= 0 {
+		n = n[:i]
+	} else if i := strings.LastIndex(n, "!"); i >= 0 {
+		n = n[:i]
+	}
+	if !strings.HasSuffix(n, "$len") && !strings.HasSuffix(n, ".len") {
+		return false
+	}
+	return strings.Contains(n, "M$") || strings.Contains(n, "H$") || strings.Contains(n, "S$")
+}
+
 // closureAxioms: the entry heap is closed under allocation — an object allocated at entry stores only
 // nil or references allocated at entry in its reference-typed fields (added per entry family used).
 func closureAxioms(ts []*Term) []*Term {
@@ -598,6 +854,19 @@ func closureAxioms(ts []*Term) []*Term {
 		seen[t] = true
 		for _, a := range t.Args {
 			walk(a)
+		}
+		if t.Kind == kConst && !done["len:"+t.Op] && isLenFamily(t) {
+			// lengths of slices stored in maps, fields and slices are never negative, in any state
+			done["len:"+t.Op] = true
+			if t.Sort == ArrSort(SInt, SInt) {
+				r := BoundVar("r", SInt)
+				out = append(out, Forall([]*Term{r}, Ge(Select(t, r), IntLit(0))))
+			} else if strings.HasPrefix(string(t.Sort), "(Array Int (Array ") && strings.HasSuffix(string(t.Sort), " Int))") {
+				_, inner := arrParts(t.Sort)
+				ks, _ := arrParts(inner)
+				r, k := BoundVar("r", SInt), BoundVar("k", ks)
+				out = append(out, Forall([]*Term{r, k}, Ge(Select(Select(t, r), k), IntLit(0))))
+			}
 		}
 		if t.Kind == kConst && strings.HasSuffix(strings.Trim(t.Op, "|"), "@0") && !done[t.Op] {
 			fam := strings.TrimSuffix(strings.Trim(t.Op, "|"), "@0")
@@ -658,8 +927,8 @@ func unfoldRec(ts []*Term, rounds int) []*Term {
 				walk(a)
 			}
 			if t.Kind == kUF && !t.hasBV {
-				if _, ok := recDefBodies[t.Op]; ok && !done[t.String()] {
-					done[t.String()] = true
+				if _, ok := recDefBodies[t.Op]; ok && !done[t.Key()] {
+					done[t.Key()] = true
 					apps = append(apps, t)
 				}
 			}
@@ -730,7 +999,7 @@ func witnessCands(g *Term, vi int) []*Term {
 		if t == nil || t.hasBV || t.Sort != v.Sort {
 			return
 		}
-		k := t.String()
+		k := t.Key()
 		if !seen[k] {
 			seen[k] = true
 			out = append(out, t)
@@ -780,6 +1049,11 @@ func witnessCands(g *Term, vi int) []*Term {
 	}
 	for _, sk := range witnessSks {
 		add(sk)
+		if sk.Sort == SInt && v.Sort == SInt {
+			// the neighbours of an assumed witness (an element moved by one position)
+			add(Sub(sk, IntLit(1)))
+			add(Add(sk, IntLit(1)))
+		}
 	}
 	if len(out) > 60 {
 		out = out[:60]
